@@ -149,7 +149,7 @@ Definition same_but_left (s1 s2 : dstate) : Prop :=
 Lemma fold_sim ps args1 kw1 args2 kw2 rest :
   forall done st1 st2,
   NoDup (done ++ bound_names rest) ->
-  (forall p, In p rest -> binds p = true -> given ps args1 kw1 p = given ps args2 kw2 p) ->
+  (forall p, In p rest -> binds p = true -> deliver p (given ps args1 kw1 p) = deliver p (given ps args2 kw2 p)) ->
   same_but_left st1 st2 -> ds_left st1 = dels done kw1 -> ds_left st2 = dels done kw2 ->
   match fold_opt (del_step ps args1) rest st1, fold_opt (del_step ps args2) rest st2 with
   | Some s1, Some s2 => same_but_left s1 s2 /\ ds_left s1 = dels (done ++ bound_names rest) kw1 /\
@@ -184,7 +184,7 @@ Proof.
       { unfold bound_names. cbn [filter]. rewrite Eb. reflexivity. }
       rewrite E. rewrite E in N.
       destruct S as [S1 [S2 S3]].
-      assert (G' : forall q, In q rest -> binds q = true -> given ps args1 kw1 q = given ps args2 kw2 q)
+      assert (G' : forall q, In q rest -> binds q = true -> deliver q (given ps args1 kw1 q) = deliver q (given ps args2 kw2 q))
         by (intros q Hq Hbq; apply G; [right; exact Hq | exact Hbq]).
       unfold hid_step. destruct (ppos p) as [pos|].
       * destruct (is_sargs p).
@@ -228,13 +228,24 @@ Proof.
     rewrite (IH _ _ H), (del_step_vis _ _ _ _ _ E). destruct (hidpos p); cbn [length]; lia.
 Qed.
 
-(* THE binding theorem: calls that give every parameter the same argument (however spelled),
-   the same surplus positional arguments and the same surplus keywords bind identically *)
-Theorem get_delegate_given ps args1 kw1 args2 kw2 :
+(* what get_delegate does with the surplus positional arguments and the surplus keywords *)
+Definition extras_bind (ps : list param) (args : list arg) : option (list bval) :=
+  if Nat.ltb (nvis ps) (length args) then
+    match star_param ps with Some q => bind_all sub q (skipn (nvis ps) args) | None => None end
+  else Some [].
+Definition left_bind (ps : list param) (left : kwargs) (acc : list (Z * bval)) : option (list (Z * bval)) :=
+  match left with
+  | [] => Some acc
+  | _ => match kwargs_param ps with Some q => bind_kw sub q left acc | None => None end
+  end.
+
+(* general form: the binding is determined by what is DELIVERED to every parameter, by the delivered
+   surplus positional arguments and the delivered surplus keywords *)
+Theorem get_delegate_deliver ps args1 kw1 args2 kw2 :
   NoDup (bound_names ps) ->
-  (forall p, In p ps -> binds p = true -> given ps args1 kw1 p = given ps args2 kw2 p) ->
-  skipn (nvis ps) args1 = skipn (nvis ps) args2 ->
-  dels (bound_names ps) kw1 = dels (bound_names ps) kw2 ->
+  (forall p, In p ps -> binds p = true -> deliver p (given ps args1 kw1 p) = deliver p (given ps args2 kw2 p)) ->
+  extras_bind ps args1 = extras_bind ps args2 ->
+  (forall acc, left_bind ps (dels (bound_names ps) kw1) acc = left_bind ps (dels (bound_names ps) kw2) acc) ->
   get_delegate ps args1 kw1 = get_delegate ps args2 kw2.
 Proof.
   intros N G X L. unfold Resolution.get_delegate.
@@ -246,16 +257,32 @@ Proof.
   destruct (fold_opt (del_step ps args1) ps _) as [s1|] eqn:E1;
     destruct (fold_opt (del_step ps args2) ps _) as [s2|] eqn:E2; try contradiction; [|reflexivity].
   destruct H as [[S1 [S2 S3]] [L1 L2]]. cbn [app] in L1, L2.
-  pose proof (fold_vis _ _ _ _ _ E1) as V. cbn [ds_vis] in V. fold npos in V.
-  assert (V1 : ds_vis s1 = nvis ps) by exact V.
-  rewrite <- S1, <- S2, <- S3, L1, L2, <- L, V1, <- X.
-  assert (B : Nat.ltb (nvis ps) (length args1) = Nat.ltb (nvis ps) (length args2)).
-  { destruct (Nat.ltb (nvis ps) (length args1)) eqn:A1; destruct (Nat.ltb (nvis ps) (length args2)) eqn:A2; try reflexivity.
-    - apply Nat.ltb_lt in A1. apply Nat.ltb_ge in A2. apply skipn_nil_len in A2. rewrite <- X in A2.
-      apply skipn_nil_len in A2. lia.
-    - apply Nat.ltb_ge in A1. apply Nat.ltb_lt in A2. apply skipn_nil_len in A1. rewrite X in A1.
-      apply skipn_nil_len in A1. lia. }
-  rewrite <- B. reflexivity.
+  pose proof (fold_vis _ _ _ _ _ E1) as V1. cbn [ds_vis] in V1. fold npos in V1.
+  pose proof (fold_vis _ _ _ _ _ E2) as V2. cbn [ds_vis] in V2. fold npos in V2.
+  change (ds_vis s1 = nvis ps) in V1. change (ds_vis s2 = nvis ps) in V2.
+  unfold extras_bind in X. rewrite V1, V2, X.
+  specialize (L (ds_kwd s1)). unfold left_bind in L. rewrite <- L1, <- L2 in L.
+  rewrite <- S1, <- S2. rewrite L. reflexivity.
+Qed.
+
+(* THE binding theorem: calls that give every parameter the same argument (however spelled),
+   the same surplus positional arguments and the same surplus keywords bind identically *)
+Theorem get_delegate_given ps args1 kw1 args2 kw2 :
+  NoDup (bound_names ps) ->
+  (forall p, In p ps -> binds p = true -> given ps args1 kw1 p = given ps args2 kw2 p) ->
+  skipn (nvis ps) args1 = skipn (nvis ps) args2 ->
+  dels (bound_names ps) kw1 = dels (bound_names ps) kw2 ->
+  get_delegate ps args1 kw1 = get_delegate ps args2 kw2.
+Proof.
+  intros N G X L. apply get_delegate_deliver; [exact N| | |].
+  - intros p Hin Hb. rewrite (G p Hin Hb). reflexivity.
+  - unfold extras_bind. rewrite <- X.
+    assert (B : Nat.ltb (nvis ps) (length args1) = Nat.ltb (nvis ps) (length args2)).
+    { destruct (Nat.ltb_spec (nvis ps) (length args1)) as [A1|A1]; destruct (Nat.ltb_spec (nvis ps) (length args2)) as [A2|A2]; try reflexivity.
+      - apply skipn_nil_len in A2. rewrite <- X in A2. apply skipn_nil_len in A2. lia.
+      - apply skipn_nil_len in A1. rewrite X in A1. apply skipn_nil_len in A1. lia. }
+    rewrite B. reflexivity.
+  - intro acc. rewrite L. reflexivity.
 Qed.
 
 (* ---- constructed spellings ---------------------------------------------------------- *)
@@ -415,6 +442,77 @@ Proof.
       destruct (emit ps s k q); [|contradiction]. destruct H as [H|[]]. injection H as <- <-.
       cbn [fst]. unfold bound_names. apply in_map, Hq. }
     rewrite !E. reflexivity.
+Qed.
+
+(* ---- call(name, args, kwargs): plain values instead of constant expressions ------------ *)
+Definition to_raw (a : arg) : arg := match a with AConst v => ARaw v | _ => a end.
+Definition raw_kw (kw : kwargs) : kwargs := map (fun kv => (fst kv, to_raw (snd kv))) kw.
+Definition eager_kind (p : param) : bool := match pkind p with KTyped _ _ | KHidden _ => true | _ => false end.
+
+Lemma checked_to_raw p a : eager_kind p = true -> checked p (to_raw a) = checked p a.
+Proof. unfold eager_kind, Resolution.checked. destruct (pkind p); try discriminate; intros _; destruct a; reflexivity. Qed.
+
+Lemma arg_given_raw args r : arg_given (map to_raw args) r = arg_given args r.
+Proof.
+  unfold arg_given. rewrite nth_error_map. destruct (nth_error args r) as [a|]; [|reflexivity]. destruct a; reflexivity.
+Qed.
+
+Lemma kw_get_raw k kw : kw_get k (raw_kw kw) = option_map to_raw (kw_get k kw).
+Proof.
+  unfold raw_kw. induction kw as [|[k0 a] r IH]; [reflexivity|]. cbn [map fst snd kw_get].
+  destruct (Z.eqb k k0); [reflexivity | exact IH].
+Qed.
+
+Lemma kw_del_raw k kw : kw_del k (raw_kw kw) = raw_kw (kw_del k kw).
+Proof.
+  unfold raw_kw. induction kw as [|[k0 a] r IH]; [reflexivity|]. cbn [map fst snd kw_del].
+  destruct (Z.eqb k k0); [exact IH|]. cbn [map fst snd]. rewrite IH. reflexivity.
+Qed.
+
+Lemma dels_raw ns kw : dels ns (raw_kw kw) = raw_kw (dels ns kw).
+Proof. revert kw; induction ns as [|n r IH]; intro kw; cbn; [reflexivity|]. rewrite kw_del_raw. apply IH. Qed.
+
+Lemma given_raw ps args kw p :
+  given ps (map to_raw args) (raw_kw kw) p = option_map (option_map to_raw) (given ps args kw p).
+Proof.
+  unfold given. destruct (ppos p) as [pos|].
+  - rewrite arg_given_raw, kw_has_get, kw_get_raw. destruct (arg_given args (pos - fix_at ps pos)).
+    + rewrite kw_has_get. destruct (kw_get (arg_name p) kw); cbn; [reflexivity|].
+      change ANoValue with (to_raw ANoValue) at 1. rewrite map_nth. reflexivity.
+    + reflexivity.
+  - rewrite kw_get_raw. reflexivity.
+Qed.
+
+Lemma deliver_raw p g : eager_kind p = true -> deliver p (option_map (option_map to_raw) g) = deliver p g.
+Proof. intro H. destruct g as [[a|]|]; cbn; [apply checked_to_raw, H | reflexivity | reflexivity]. Qed.
+
+Lemma bind_all_raw q l : eager_kind q = true -> bind_all sub q (map to_raw l) = bind_all sub q l.
+Proof. intro H. induction l as [|a r IH]; [reflexivity|]. cbn. rewrite checked_to_raw, IH by exact H. reflexivity. Qed.
+
+Lemma bind_kw_raw q l : eager_kind q = true -> forall acc, bind_kw sub q (raw_kw l) acc = bind_kw sub q l acc.
+Proof.
+  intro H. induction l as [|[k a] r IH]; intro acc; [reflexivity|]. cbn. rewrite checked_to_raw by exact H.
+  destruct (checked q a); [apply IH | reflexivity].
+Qed.
+
+(* handing plain values and python keywords (what call(name, args, kwargs) does) binds exactly like
+   handing the constant expressions of a direct call, for every definition whose parameters are
+   eagerly evaluated typed (or hidden) ones *)
+Theorem call_function_typed ps args kw :
+  NoDup (bound_names ps) -> forallb eager_kind ps = true ->
+  get_delegate ps (map to_raw args) (raw_kw kw) = get_delegate ps args kw.
+Proof.
+  intros N T. rewrite forallb_forall in T. apply get_delegate_deliver; [exact N| | |].
+  - intros p Hin _. rewrite given_raw. apply deliver_raw, T, Hin.
+  - unfold extras_bind. rewrite map_length. destruct (Nat.ltb (nvis ps) (length args)); [|reflexivity].
+    destruct (star_param ps) as [q|] eqn:Eq; [|reflexivity].
+    rewrite skipn_map. apply bind_all_raw, T. unfold star_param in Eq. apply find_some in Eq. tauto.
+  - intro acc. rewrite dels_raw. unfold left_bind.
+    destruct (dels (bound_names ps) kw) as [|x r] eqn:E; [reflexivity|].
+    change (raw_kw (x :: r)) with ((fst x, to_raw (snd x)) :: raw_kw r).
+    destruct (kwargs_param ps) as [q|] eqn:Eq; [|reflexivity].
+    change ((fst x, to_raw (snd x)) :: raw_kw r) with (raw_kw (x :: r)).
+    apply bind_kw_raw, T. unfold kwargs_param in Eq. apply find_some in Eq. tauto.
 Qed.
 
 (* giving the default explicitly (as a plain value or as a constant) to an eagerly evaluated
